@@ -456,6 +456,7 @@ type Contract struct {
 	Modifies  *ModSpec
 	Unmodelled bool
 	Callsites  []CallsiteClause
+	Assumed    []Clause
 }
 
 type SpecFunc struct {
@@ -486,7 +487,7 @@ type SpecFile struct {
 }
 
 var clauseKeywords = map[string]bool{"func": true, "requires": true, "ensures": true, "loop": true, "nopanic": true,
-	"modifies": true, "trusted": true, "spec": true, "axiom": true, "lemma": true, "pure": true, "ghost": true, "callsite": true}
+	"modifies": true, "trusted": true, "spec": true, "axiom": true, "lemma": true, "pure": true, "ghost": true, "callsite": true, "assumed": true}
 
 type CallsiteClause struct {
 	Callee string
@@ -528,7 +529,7 @@ func ParseSpecFile(path, text, pkg string) (*SpecFile, error) {
 		}
 		word, rest := splitWord(rl.s)
 		label := ""
-		if strings.HasPrefix(rest, "[") && (word == "ensures" || word == "requires" || word == "axiom" || word == "lemma") {
+		if strings.HasPrefix(rest, "[") && (word == "ensures" || word == "requires" || word == "axiom" || word == "lemma" || word == "assumed") {
 			j := strings.Index(rest, "]")
 			label = rest[1:j]
 			rest = strings.TrimSpace(rest[j+1:])
@@ -538,7 +539,7 @@ func ParseSpecFile(path, text, pkg string) (*SpecFile, error) {
 			key := normalizeKey(pkg, strings.TrimSpace(rest))
 			cur = &Contract{Key: key, File: path, Line: rl.n, Loops: map[int][]Clause{}, Decreases: map[int]Clause{}}
 			sf.Contracts = append(sf.Contracts, cur)
-		case "requires", "ensures":
+		case "requires", "ensures", "assumed":
 			if cur == nil {
 				return nil, errf("%s outside a func block", word)
 			}
@@ -554,9 +555,14 @@ func ParseSpecFile(path, text, pkg string) (*SpecFile, error) {
 				}
 			}
 			cl := Clause{Label: label, Expr: e, Src: word + " " + rest}
-			if word == "requires" {
+			switch word {
+			case "requires":
 				cur.Requires = append(cur.Requires, cl)
-			} else {
+			case "assumed":
+				// a postcondition callers may rely on but that is NOT checked against the body
+				// (reported as an assumption wherever it is used)
+				cur.Assumed = append(cur.Assumed, cl)
+			default:
 				cur.Ensures = append(cur.Ensures, cl)
 			}
 		case "loop":
